@@ -15,6 +15,7 @@ from harness import c06_util as U
 from translate import c06_vmf as T
 from translate import c06_prog as P
 from translate import c06_lite as L
+from translate import c06_ids as IDS
 from translate import c01_kvser
 
 MANIFEST = dict(
@@ -24,9 +25,13 @@ MANIFEST = dict(
               'symbolically); since round 3 the formatter of every written number, the guard of the optional multiblend arrays, an '
               'object-level table (which attributes every written key is computed from / every looked-up key flows into, by data-flow '
               'analysis of the parse methods and constructors) and the displacement flag tables; the block theorem composes the '
-              'string-level theorems with the C01 KeyValues1 tokenizer/parser model; vm_compute correspondence of the '
-              'escape/scanner/rounding/output/fixup/number-group-text models; round-trip search on real VMF objects',
-    text='Theorems in Props/C06.v (53): the tokenizer\'s quoted-string scanner inverts escape_text for every string in both modes; '
+              'string-level theorems with the C01 KeyValues1 tokenizer/parser model; since round 4 the ID managers (which class every '
+              'manager attribute of a VMF gets with and without preserve_ids, the get_id method of each class executed symbolically into a '
+              'decision list over the requested ID), the containment edges of the object graph (which attribute of which class holds child '
+              'objects of which class, from the parse methods), the loops over set-typed attributes in the export methods, and the slot / '
+              'marker / axis tables of 2D viewports; vm_compute correspondence of the '
+              'escape/scanner/rounding/output/fixup/number-group-text/ID-manager/viewport models; round-trip search on real VMF objects',
+    text='Theorems in Props/C06.v (70): the tokenizer\'s quoted-string scanner inverts escape_text for every string in both modes; '
          'every keyvalue line whose interpolations are escaped strings, numbers or plain literals re-reads as its field values (a raw '
          'string field does not); for every generated export program that passes prog_ok, every environment and call depth, the text '
          'written parses -- C01 tokenizer and Keyvalues.parse model -- to exactly the tree of keys, values and child blocks the writer '
@@ -41,15 +46,27 @@ MANIFEST = dict(
          'significant digits for face rotation / output delay / multiblend, exact for integers and flags), and the table is tight; '
          '"x y z" in any bracket pair and "[x y z offset] scale" are taken apart into their number tokens by parse_vec_str / '
          'UVAxis.parse, the plane triple "(a) (b) (c)" into its three parts; reading entity and hidden blocks in file order preserves entity order. '
-         '188 instance obligations (271 obligations in total with theorems, correspondences, translators, ties) are regenerated '
+         'Round 4: a get_id decision list that passes nid_ok hands back every natural number it is asked for, whatever its opaque '
+         'condition (and one that fails it renumbers some natural number: the check is complete), so with preserve_ids every kind of ID '
+         '(entity, solid, face, group, visgroup, node) is kept; for any class table, every well-formed object tree (VMF > Entity > Solid > '
+         'Side, VMF > VisGroup > VisGroup, any depth and width) is given back by parse-after-export when its classes are paired, its child '
+         'attributes are exported and filled, and the field codecs invert -- hence the second export equals the first; membership lines '
+         'written in sorted order do not depend on the iteration order of the set; the planar axis and both coordinates of a 2D viewport '
+         'survive when the coordinates are not marker values; c06_property states all of it over arbitrary generated objects with the '
+         'obligations as visible hypotheses. '
+         '209 instance obligations (315 obligations in total with theorems, correspondences, translators, ties) are regenerated '
          'from vmf.py / math.py and kernel-checked on every run. The search builds maps through the public API (all object kinds, options '
-         'minimal/disp_multiblend/preserve_ids, every tests/*.vmf) and checks text fixed point and field-by-field equality with the '
-         'stated tolerances.',
+         'minimal/disp_multiblend/preserve_ids, ID schemes from 0 / sparse / huge / repeated on the objects or in the parsed text, every '
+         'tests/*.vmf) and checks text fixed point and field-by-field equality with the stated tolerances; every round trip runs under an alarm.',
     note='Partial with respect to the whole-map statement: text -> KeyValues tree is proved for all export methods; tree -> object is '
          'proved per class at the level "which attribute receives which key" (flat: child lists are paired only as exported/parsed '
-         'attributes, there is no recursive Gallina object graph), per array, per output value, per fixup line, per number group; the '
-         'plane triple, allowed_verts, viewport axis selection, ID managers and membership sets are search-only; float(token) is '
-         'outside the token models. Trusted: Coq kernel + vm_compute, translate/c06_vmf.py, c06_prog.py, c06_lite.py (key table '
+         'attributes), per array, per output value, per fixup line, per number group; the recursion over child objects is a theorem '
+         'over an abstract object tree whose hypotheses (pairing, containment edges) are obligations on the generated tables -- the edges '
+         'VMF.cameras / cordons / groups / strata_viewports, whose reader registers the child inside the child\'s constructor, are not '
+         'seen by the translator and stay search-only; that the blocks of the tree model are the blocks of the write programs is not a '
+         'theorem; the allowed_verts array is covered by key pairing and number format only; the reader loops of IDMan.get_id (search for a '
+         'free ID) are one opaque "anything else" outcome; ID 0 without preserve_ids is renumbered by IDMan without updating references '
+         '(noted for C08, excluded from the generator); float(token) is outside the token models. Trusted: Coq kernel + vm_compute, translate/c06_vmf.py, c06_prog.py, c06_lite.py, c06_ids.py (key table '
          'cross-checked against really exported text, number formats against really exported numbers, on every run), the hand tables '
          '(field types, number kinds, required precision per field, class -> methods, ARRAY_ATTRS, ALIAS_ATTRS), the C01 KeyValues1 model '
          '(tied by C01\'s own check), CPython number formatting being correctly rounded and producing no quote/backslash/newline, '
@@ -82,7 +99,7 @@ def required_class(block: str, key: str, idx: int) -> str:
 
 IMPORTS = ['Coq.NArith.NArith', 'Coq.ZArith.ZArith', 'Coq.Lists.List', 'Coq.Strings.String', 'SV.KV.KvBase', 'SV.Fmt.VmfText',
            'SV.Fmt.VmfBlocks', 'SV.Gen.VmfTemplates_gen', 'SV.Gen.VmfKeys_gen', 'SV.Gen.VmfDispSizes_gen', 'SV.Gen.VmfOrder_gen',
-           'SV.Gen.VmfProg_gen', 'SV.Fmt.VmfFields', 'SV.Gen.VmfFieldsCfg_gen', 'SV.Fmt.VmfNum', 'SV.Gen.VmfNumFmt_gen', 'SV.Fmt.VmfGuard', 'SV.Fmt.VmfLite', 'SV.Gen.VmfLite_gen', 'SV.Fmt.VmfFlags', 'SV.Gen.VmfFlags_gen', 'SV.Fmt.VmfTok', 'SV.Fmt.VmfPlane', 'SV.KV.KvSym', 'SV.Gen.KVSer_gen', 'SV.Props.C06']
+           'SV.Gen.VmfProg_gen', 'SV.Fmt.VmfFields', 'SV.Gen.VmfFieldsCfg_gen', 'SV.Fmt.VmfNum', 'SV.Gen.VmfNumFmt_gen', 'SV.Fmt.VmfGuard', 'SV.Fmt.VmfLite', 'SV.Gen.VmfLite_gen', 'SV.Fmt.VmfFlags', 'SV.Gen.VmfFlags_gen', 'SV.Fmt.VmfTok', 'SV.Fmt.VmfPlane', 'SV.Fmt.VmfIds', 'SV.Gen.VmfIds_gen', 'SV.Fmt.VmfTree', 'SV.Fmt.VmfSets', 'SV.Gen.VmfSets_gen', 'SV.Fmt.VmfViewport', 'SV.Gen.VmfViewport_gen', 'SV.KV.KvSym', 'SV.Gen.KVSer_gen', 'SV.Props.C06']
 PRE = '''Import ListNotations. Open Scope string_scope.
 Fixpoint nl_eqb (a b : list N) : bool := match a, b with [], [] => true | x :: a', y :: b' => N.eqb x y && nl_eqb a' b' | _, _ => false end.
 Fixpoint bad_idx {A} (f : A -> bool) (n : N) (l : list A) : list N := match l with [] => [] | x :: r => (if f x then [] else [n]) ++ bad_idx f (n + 1)%N r end.
@@ -464,6 +481,142 @@ Definition plane_chk (s : list N) : option (list (list (list N))) := match plane
             ck.extra[f'{name}_disagreement'] = repr(cases[bad[0]])
 
 
+def corr_ids(ck: Ck, idm: dict) -> None:
+    """The generated decision lists of the get_id methods against the real classes: for every class VMF.__init__ uses as an ID
+    manager, a fresh instance that already holds the IDs 1..39 is asked for generated IDs (-1, other negatives, 0, 1, used and unused
+    small numbers, huge numbers, repetitions); observed: "the answer is the requested ID".  The model must give that answer
+    for one of the two outcomes of its opaque condition (both, when the list has none).  And directly on the implementation
+    (oracle): every manager of VMF(preserve_ids=True) hands back every natural number it is asked for, also when asked twice."""
+    from srctools import vmf as V
+    progs = idm.get('programs', {})
+    cases = []
+    pool = [-1, -1, -7, 0, 0, 1, 2, 5, 39, 40, 41, 57, 1000, 65535, 2 ** 31 - 1, 2 ** 31, 2 ** 32, 2 ** 63, 10 ** 20]
+    for cname in sorted(progs):
+        cls = getattr(V, cname, None)
+        if cls is None:
+            ck.obligation('correspondence:id_manager_programs', False, f'class {cname} not importable')
+            return
+        for _ in range(ck.budget(12, 60)):
+            man = cls(range(1, 40))
+            for _ in range(ck.rng.randint(1, 6)):
+                d = ck.rng.choice(pool) if ck.rng.random() < 0.8 else ck.rng.randint(-3, 80)
+                try:
+                    with U.time_limit(10):
+                        r = man.get_id(d)
+                except Exception as e:       # noqa: BLE001 - a fault may make the method raise or loop: a failing input
+                    ck.violation(f'ids:get_id-error:{cname}', f'{cname}(range(1, 40)).get_id({d}) raised {type(e).__name__}: {e}',
+                                 {'class': cname, 'desired': d})
+                    r = None
+                cases.append((cname, d, r == d))
+                ck.count('id_manager_cases')
+                ck.hist('id_manager_request', 'sentinel -1' if d == -1 else 'negative' if d < 0 else 'zero' if d == 0 else
+                        'used 1..39' if d < 40 else 'huge' if d >= 2 ** 31 - 1 else 'free')
+                ck.seen(('idman', cname, d, len(cases)))
+    names = sorted(progs)
+    lit = coq_list(f'(({names.index(c)}%nat, ({d})%Z), {"true" if k else "false"})' for c, d, k in cases[:500])
+    pre = PRE + 'Definition prog_of (i : nat) : idprog := snd (nth i gen_id_classes (EmptyString, nil)).\n'
+    vals = ck.coq_eval(IMPORTS, [
+        f'bad_idx (fun c : (nat * Z) * bool => let p := prog_of (fst (fst c)) in let d := snd (fst c) in '
+        f'(Bool.eqb (is_keep (id_get p true d)) (snd c) || Bool.eqb (is_keep (id_get p false d)) (snd c))%bool) 0%N {lit}',
+        'map fst gen_id_classes'], name='idman', preamble=pre)
+    order_ok = None if vals is None else [vals[1]]
+    if vals is None or order_ok is None:
+        ck.obligation('correspondence:id_manager_programs', False, 'model could not be evaluated')
+        ck.tie_broken.append('correspondence id managers: model evaluation failed')
+        return
+    got_names = re.findall(r'"([^"]*)"', order_ok[0])
+    bad = parse_coq_N_list(vals[0])
+    ck.obligation('correspondence:id_manager_programs', not bad and got_names == names,
+                  f'{min(len(cases), 500)} requests to {names}, Fmt/VmfIds.id_get on the generated decision lists vs get_id: {len(bad)} disagreements')
+    if bad or got_names != names:
+        ck.tie_broken.append('correspondence id managers (generated decision list vs get_id)')
+        ck.extra['id_manager_disagreement'] = repr(cases[bad[0]]) if bad else repr((got_names, names))
+    ck.sample({'id_manager_case(class, requested, answer == requested)': list(cases[3])})
+    # oracle on the implementation: preserve_ids=True means every manager of the map hands back what it is asked for
+    for attr in sorted(idm.get('managers', {})):
+        m = V.VMF(preserve_ids=True)
+        man = getattr(m, attr)
+        for d in [0, 1, 0, 2, 7, 7, 1000000, 2 ** 31 - 1, 2 ** 32, 3, 1]:
+            ck.count('preserving_manager_requests')
+            try:
+                with U.time_limit(10):
+                    r = man.get_id(d)
+            except Exception as e:       # noqa: BLE001
+                r = f'{type(e).__name__}: {e}'
+            if r != d:
+                ck.violation(f'ids:manager:{attr}', f'VMF(preserve_ids=True).{attr}.get_id({d}) returned {r!r}: the ID is not preserved',
+                             {'manager': attr, 'desired': d, 'got': repr(r)})
+                break
+
+
+def corr_viewport(ck: Ck) -> None:
+    """vp_read of Fmt/VmfViewport.v on the generated tiers / axis table against Strata2DViewport.from_vector on generated vectors
+    (coordinates from 0, +-65536, ordinary integers: no marker, one marker, several markers, zeros with and without a marker), and
+    vp_write on the generated slots against the position really written by Strata2DViewport.export."""
+    import io
+    from srctools.keyvalues import Keyvalues
+    from srctools.math import Vec
+    from srctools.vmf import Strata2DViewport
+    pool = [0, 0, 65536, -65536, 5, -7, 1, 65535, 12]
+    ax = {'x': 'AX', 'y': 'AY', 'z': 'AZ'}
+    r_cases, w_cases = [], []
+    for _ in range(ck.budget(150, 600)):
+        p = [ck.rng.choice(pool) for _ in range(3)]
+        try:
+            vp = Strata2DViewport.from_vector(Vec(*p))
+            exp = (vp.axis, int(vp.u), int(vp.v))
+        except ValueError:
+            exp = None
+        r_cases.append((p, exp))
+        ck.count('viewport_vector_cases')
+        ck.hist('viewport_vector', f'{sum(1 for c in p if abs(c) == 65536)} markers, {sum(1 for c in p if c == 0)} zeros')
+        ck.seen(('vpvec', tuple(p)))
+        a, u, v = ck.rng.choice('xyz'), ck.rng.choice(pool[4:] + [0]), ck.rng.choice(pool[4:] + [0])
+        buf = io.StringIO()
+        Strata2DViewport(a, float(u), float(v), 1.0).export(buf, 'v0')
+        pos = next(iter(Keyvalues.parse(buf.getvalue())))['position']
+        w_cases.append(((a, u, v), [int(float(t)) for t in pos.strip('()').split()]))
+    lit_r = coq_list(f'((({p[0]})%Z, ({p[1]})%Z, ({p[2]})%Z), ' + ('None' if e is None else f'Some ({ax[e[0]]}, ({e[1]})%Z, ({e[2]})%Z)') + ')' for p, e in r_cases[:500])
+    lit_w = coq_list(f'((({ax[a]}, ({u})%Z), ({v})%Z), (({w[0]})%Z, ({w[1]})%Z, ({w[2]})%Z))' for (a, u, v), w in w_cases[:500])
+    pre = PRE + 'Open Scope Z_scope.\nDefinition res_eqb (a b : option (ax * Z * Z)) : bool := match a, b with None, None => true ' \
+                '| Some (x, u, v), Some (y, u2, v2) => (ax_eqb x y && (u =? u2) && (v =? v2))%bool | _, _ => false end.\n'
+    vals = ck.coq_eval(IMPORTS, [
+        f'bad_idx (fun c : vec3 * option (ax * Z * Z) => res_eqb (vp_read gen_vp_tiers gen_vp_inv (fst c)) (snd c)) 0%N {lit_r}',
+        f'bad_idx (fun c : ((ax * Z) * Z) * vec3 => let \'(x, y, z) := vp_write gen_vp_tbl (fst (fst (fst c))) (snd (fst (fst c))) (snd (fst c)) in '
+        f'let \'(x2, y2, z2) := snd c in ((x =? x2) && (y =? y2) && (z =? z2))%bool) 0%N {lit_w}'], name='viewport', preamble=pre)
+    if vals is None:
+        ck.obligation('correspondence:viewport_axis', False, 'model could not be evaluated')
+        ck.tie_broken.append('correspondence viewport axis: model evaluation failed')
+        return
+    br, bw = (parse_coq_N_list(v) for v in vals)
+    ck.obligation('correspondence:viewport_axis_read', not br, f'{min(len(r_cases), 500)} vectors, Fmt/VmfViewport.vp_read on the generated tables vs '
+                  f'Strata2DViewport.from_vector: {len(br)} disagreements')
+    ck.obligation('correspondence:viewport_axis_written', not bw, f'{min(len(w_cases), 500)} viewports, Fmt/VmfViewport.vp_write on the generated slots vs '
+                  f'the position written by Strata2DViewport.export: {len(bw)} disagreements')
+    for name, bad, cases in (('viewport_axis_read', br, r_cases), ('viewport_axis_written', bw, w_cases)):
+        if bad:
+            ck.tie_broken.append(f'correspondence {name} (Fmt/VmfViewport.v vs vmf.py)')
+            ck.extra[f'{name}_disagreement'] = repr(cases[bad[0]])
+
+
+def guarded(ck: Ck, name: str, fn: Any, *args: Any) -> None:
+    """A correspondence stage calls the implementation on generated inputs; the exceptions it expects are handled inside.  Anything
+    else (a fault that makes the implementation raise something unexpected, or loop) is a failing input of that stage, reported as a
+    violation with the stage and the error as replay -- not an INTERNAL-ERROR of the check."""
+    import traceback
+    try:
+        with U.time_limit(600):
+            fn(*args)
+    except Exception as e:       # noqa: BLE001
+        tb = traceback.extract_tb(e.__traceback__)
+        where = next((f'{f.filename.rsplit("/", 1)[-1]}:{f.lineno} {f.name}' for f in reversed(tb) if '/srctools/' in f.filename), 'harness')
+        ck.obligation(f'correspondence:{name}', False, f'stage raised {type(e).__name__}: {e}')
+        ck.tie_broken.append(f'correspondence stage {name} raised {type(e).__name__}')
+        ck.violation(f'stage-error:{name}:{U.err_class(e)}', f'the implementation raised {type(e).__name__}: {e} (at {where}) on an input of the '
+                     f'correspondence stage {name}', {'stage': name, 'error': repr(e), 'where': where, 'seed': ck.seed})
+        ck.explain(f'correspondence:{name}')
+
+
 def rich_spec(seed: int = 7) -> dict:
     """A fixed specification that contains every kind of object (used to validate the translator's tables)."""
     rng = random.Random(seed)
@@ -782,6 +935,27 @@ def corpus_specs() -> list[tuple[str, dict]]:
     sd = U.gen_side_extra(rng, 0.0)
     sd['disp'] = d
     mk('multiblend-only-blend', brushes=[base_solid(sides=[sd] + [None] * 5)])
+    # IDs (round 4): every ID-carrying block (entity, world, solid, side, group, visgroup, nodeid) numbered from 0, sparse and huge,
+    # repeated; on the objects (route object) and in the text that is parsed (route text); with and without preserve_ids
+    def id_map(ids: dict, preserve: bool) -> dict:
+        two_vis = [{'name': 'v1', 'color': [1.0, 1.0, 1.0], 'children': [{'name': 'v3', 'color': [3.0, 3.0, 3.0], 'children': []}]},
+                   {'name': 'v2', 'color': [2.0, 2.0, 2.0], 'children': []}]
+        node = {'classname': 'info_node', 'nodeid': '__unique__'}
+        s = base_spec()
+        s.update(visgroups=two_vis, groups=[dict(grp[0]), dict(grp[0], shown=False)],
+                 brushes=[base_solid(vis=[0], group=0), base_solid(vis=[1, 2], group=1)],
+                 entities=[base_ent(vis=[0], groups=[0], keys=dict(node)), base_ent(vis=[1], groups=[1], keys=dict(node), solids=[base_solid()]),
+                           base_ent(hidden=True, keys=dict(node))], ids=ids)
+        s['opts'] = dict(s['opts'], preserve_ids=preserve)
+        return s
+    for route in ('object', 'text'):
+        out.append((f'ids-from-zero-{route}', id_map(dict({k: [0, 1, None] for k in U.ID_KINDS}, route=route), True)))
+        out.append((f'ids-sparse-huge-{route}', id_map({'route': route, 'ent': [2147483647, 1000, None], 'solid': [17, 7, None], 'face': [4294967296, 2, None],
+                                                       'group': [1000000, 1000, None], 'vis': [0, 1000, None], 'node': [0, 7, None]}, True)))
+        out.append((f'ids-repeated-{route}', id_map({'route': route, 'ent': [0, 1, 2], 'solid': [0, 0, None], 'face': [1, 1, 3],
+                                                    'group': [0, 2, None], 'vis': [0, 5, 2], 'node': [0, 1, 1]}, True)))
+        out.append((f'ids-sparse-renumbered-{route}', id_map({'route': route, 'ent': [17, 7, None], 'solid': [2, 2, None], 'face': [1000000, 1, None],
+                                                             'group': [5, 1000, None], 'vis': [2, 2, None], 'node': [3, 3, None]}, False)))
     return out
 
 
@@ -809,6 +983,13 @@ def feature_hist(ck: Ck, spec: dict) -> bool:
         'arbitrary_faces': any(s['kind'] == 'faces' for s in solids),
         'nasty_strings': any(any(c in v for c in '"\\\n') for e in ents for v in list(e['keys'].values()) + list(e['keys'])),
     }
+    ids = spec.get('ids') or {}
+    feats['id_scheme'] = bool(ids)
+    for kind in U.ID_KINDS:
+        if kind in ids:
+            st, step, wrap = ids[kind]
+            ck.hist('id_scheme', f"{ids['route']}:{kind}:" + ('from0' if st == 0 else 'from1' if st == 1 else 'huge' if st > 2 ** 31 - 2 else 'sparse')
+                    + (':repeated' if wrap or step == 0 else '') + ('' if spec['opts']['preserve_ids'] else ':unpreserved'))
     for k, v in feats.items():
         if v:
             ck.hist('features', k)
@@ -816,10 +997,10 @@ def feature_hist(ck: Ck, spec: dict) -> bool:
 
 
 def search(ck: Ck) -> None:
-    # quick: 240 maps (450 until round 3; lowered to keep the quick tier below 90 s on a heavily loaded machine now that the proof side
+    # quick: 200 maps (450 until round 3, 240 until round 4; lowered to keep the quick tier below 90 s on a heavily loaded machine now that the proof side
     # has 140 more obligations and four more correspondences; the directed corpus and the shipped files run first in any case);
     # quick with a broken tie: 2000; thorough: 7500
-    n = 7500 if ck.thorough else ck.budget(240, 2000)
+    n = 7500 if ck.thorough else ck.budget(200, 2000)
     found: dict[str, tuple[dict, str, dict]] = {}
     # Shrinking budget, counted in oracle evaluations (not wall time, so that results are reproducible): per violation key
     # and in total.  A fault in a hot path produces dozens of keys on big maps; the total keeps a failing run within minutes.
@@ -859,14 +1040,26 @@ def search(ck: Ck) -> None:
     files = sorted(glob.glob(str(REPO / 'tests' / '**' / '*.vmf'), recursive=True))
     for f in files:
         for pres in (True, False):
-            with open(f, encoding='cp1251') as fh:
-                kv = Keyvalues.parse(fh)
-            v = VMF.parse(kv, preserve_ids=pres)
+            rel0 = f[len(str(REPO)) + 1:]
+            try:
+                with U.time_limit(300):
+                    with open(f, encoding='cp1251') as fh:
+                        kv = Keyvalues.parse(fh)
+                    v = VMF.parse(kv, preserve_ids=pres)
+            except Exception as e:       # noqa: BLE001 - a shipped map that no longer parses is a failing input
+                ck.violation('file:parse-error:' + U.err_class(e), f'{rel0}: VMF.parse(preserve_ids={pres}) raised {type(e).__name__}: {e}',
+                             {'file': rel0, 'opts': {'preserve_ids': pres}})
+                continue
             for opts in ({'preserve_ids': pres}, {'preserve_ids': pres, 'minimal': True, 'disp_multiblend': False}):
                 ck.count('shipped_vmf_round_trips')
                 rel = f[len(str(REPO)) + 1:]
                 ck.seen(('file', rel, pres, bool(opts.get('minimal'))))
-                for key, what, det in U.check_vmf(v, opts):
+                try:
+                    with U.time_limit(300):
+                        res = U.check_vmf(v, opts)
+                except U.Timeout as e:
+                    res = [('hang:round-trip', f'export / parse did not finish: {e}', {})]
+                for key, what, det in res:
                     ck.violation('file:' + key, f'{rel}: {what}', {'file': rel, 'opts': opts, 'detail': det})
     ck.extra['shipped_vmf_files'] = [f[len(str(REPO)) + 1:] for f in files]
     for i in range(n):
@@ -897,6 +1090,10 @@ def run(ck: Ck) -> None:
                'Number-group texts (Vec/Angle/UVAxis/plane triple): tokens from a pool of pairwise different numbers, brackets of all four '
                'kinds, doubled and mismatched brackets, extra white space, 1..6 tokens, 2..4 plane groups (non-trivial = has a bracket; every '
                'UVAxis and plane text counts). '
+               'ID schemes (45 % of the maps; per kind entity/solid/face/group/visgroup/node: start 0, 1, 2, 17, 10^6, 2^31-1, 2^32, step 1..1000, '
+               'optionally wrapping so that numbers repeat -- only with preserve_ids, never for groups, which are keyed by ID) applied to the built '
+               'objects or to the exported text that is then parsed. ID-manager requests: -1, negatives, 0, used and free small numbers, huge numbers, '
+               'repetitions, on instances that already hold 1..39. Viewport vectors: coordinates from 0, +-65536 and ordinary integers. '
                'Shipped files: every tests/**/*.vmf x preserve_ids x minimal.')
     ck.trusted.append('hand tables in translate/c06_vmf.py (field types, call graph of export methods, parse roots, vertex arity), '
                       'validated on real objects / really exported text on every run')
@@ -906,6 +1103,9 @@ def run(ck: Ck) -> None:
                       '(tied by differential correspondence and by the generated separators / field order)')
     ck.trusted.append('translate/c06_lite.py: data-flow analysis of the parse methods and constructors (object-level table), hand tables CLASSES, '
                       'ARRAY_ATTRS, ALIAS_ATTRS; the hand table of the precision class each written number must keep (REQUIRED_* in checks/c06.py)')
+    ck.trusted.append('translate/c06_ids.py: symbolic execution of get_id / VMF.__init__, scan for get_id call sites, for loops over set-typed '
+                      'attributes (set-typed = annotated set[...] or assigned set(...)), for the position templates / marker tiers of 2D viewports; '
+                      'the hand model of the reader loop of Strata2DViewport.from_vector (vp_choose; tied by correspondence)')
     ck.trusted.append('the C01 KeyValues1 tokenizer/parser model rocq/KV/* (imported read-only; tied to keyvalues.py/tokenizer.py by check C01)')
     ck.assumptions += [
         'CPython float formatting (%.6f, %g, repr) is correctly rounded and its output contains only digits, sign, point, exponent, '
@@ -913,14 +1113,17 @@ def run(ck: Ck) -> None:
         'float(text) returns the double nearest to the decimal text (re-reading adds at most half an ulp to the bounds of family 4)',
         'text -> tree is proved for every export program; the tree -> object half for whole objects is informal (per block / per field '
         'families) and covered by the search',
+        'IDs a map can carry are natural numbers: -1 is the API\'s "no ID", Entity.parse takes an id key as the ID only when it is all digits; '
+        'without preserve_ids IDs are positive and unique (IDMan; 0 would be renumbered without updating references -- C08\'s subject)',
+        'a Python set iterates over its elements in some duplicate-free order (model: any NoDup list); sorted() is a function of the multiset',
         'str.split, str.join, int() on digit strings and str.casefold behave as modelled (split_on, join, parse_digits; casefold enters '
         'the theorems as the section variables is_inst / same_var)',
     ]
-    oks = [ck.translate(name, fn) for name, fn in {**T.GEN, **P.GEN, **L.GEN}.items()]
+    oks = [ck.translate(name, fn) for name, fn in {**T.GEN, **P.GEN, **L.GEN, **IDS.GEN}.items()]
     # C01's generated parser sites (read-only use of C01's translator): premise pcfg_ok of the block theorem
     oks.append(ck.translate('KVSer_gen', c01_kvser.translate))
     tr = ck.extra.get('translated', {})
-    built = all(oks) and ck.build(['Gen/KVSer_gen.vo', 'Props/C06.vo'])
+    built = all(oks) and ck.build(['Gen/KVSer_gen.vo', 'Gen/VmfIds_gen.vo', 'Gen/VmfSets_gen.vo', 'Gen/VmfViewport_gen.vo', 'Props/C06.vo'])
     if built:
         ck.theorems('Props/C06.v')
         obs: dict[str, str] = {}
@@ -974,11 +1177,43 @@ def run(ck: Ck) -> None:
             obs[f'fields_paired:{cname}'] = f'lite_paired lite_{cname}'
             obs[f'attrs_all_written:{cname}'] = f'lite_attrs_written lite_{cname}'
             ck.hist('object_level_written_keys', cname, len(lite[cname]['written']))
+        # containment tree (round 4): the edges the tree theorem may use -- attribute exported by the parent's writer, filled by
+        # the parent's reader with objects of a class of the table, both classes paired -- and the chain VMF > Entity > Solid > Side
+        edges = tr.get('VmfLite_gen', {}).get('child_classes', [])
+        for pc, attr, cc in edges:
+            if cc in L.CLASSES:
+                obs[f'containment_edge:{pc}.{attr}'] = f'edge_ok lite_classes (("{pc}", "{attr}"), "{cc}")'
+            ck.hist('containment_edges', f'{pc}.{attr}->{cc}' + ('' if cc in L.CLASSES else ' (class not in the object-level table)'))
+        obs['containment_chain:VMF>Entity>Solid>Side'] = 'chain_ok lite_classes lite_kid_classes ("VMF" :: "Entity" :: "Solid" :: "Side" :: nil)'
+        obs['containment_chain:VMF>VisGroup>VisGroup'] = 'chain_ok lite_classes lite_kid_classes ("VMF" :: "VisGroup" :: "VisGroup" :: nil)'
+        # membership sets (round 4): every loop of an export method over a set-typed attribute iterates sorted(...)
+        loops = tr.get('VmfSets_gen', {}).get('loops', [])
+        for meth in sorted({m for m, _a, _ok in loops}):
+            obs[f'membership_lines_in_canonical_order:{meth}'] = f'member_loops_ok (loops_of "{meth}" gen_member_loops)'
+        obs['membership_loops_found'] = '(3 <=? List.length gen_member_loops)%nat'
+        # 2D viewport axis (round 4)
+        obs['viewport_axis_tables_agree'] = 'vp_ok gen_vp_tiers gen_vp_tbl gen_vp_inv'
         obs['object_classes_complete'] = f'({len(L.CLASSES)} <=? List.length lite_classes)%nat'
         obs['disp_flags_tables_inverse'] = 'flags_tables_ok gen_flags_written gen_flags_t2c gen_flags_sub gen_flags_count'
         obs['disp_flags_all_values'] = '(16 <=? gen_flags_count)%nat'
+        # IDs (round 4): every manager attribute of a VMF gets, under preserve_ids, a class whose get_id hands back every
+        # natural number it is asked for; every constructor that asks a manager stores its answer; VMF.parse hands the flag on
+        idm = tr.get('VmfIds_gen', {})
+        for attr in sorted(idm.get('managers', {})):
+            obs[f'ids_preserved_when_asked:{attr}'] = f'kind_ok gen_id_classes gen_id_managers gen_id_sites "{attr}"'
+        obs['id_managers_complete'] = '(6 <=? List.length gen_id_managers)%nat'
+        obs['parse_hands_preserve_ids_on'] = 'gen_parse_passes_preserve'
+        for c, idp in sorted(idm.get('programs', {}).items()):
+            ck.hist('id_manager_paths', c, len(idp))
         obs['output_field_count_and_recombination'] = '(Nat.eqb gen_out_exact_fields 5 && Nat.eqb gen_out_recombine_from 6)%bool'
         obs['output_field_order_agrees'] = ('(nlist_eqb gen_out_write_order (0 :: 1 :: 2 :: 3 :: 4 :: nil)%N && nlist_eqb gen_out_read_order (0 :: 1 :: 2 :: 3 :: 4 :: nil)%N)%bool')
+        # the hypotheses of the composed statement c06_property hold for what was generated from today's source (the example the
+        # statement is not vacuous for): write programs, parser sites, class table, ID managers of every kind, membership loops, viewports
+        kinds = ' :: '.join(f'"{a}"' for a in sorted(idm.get('managers', {}))) + ' :: nil'
+        obs['property_hypotheses_hold_for_todays_source'] = (
+            '(table_ok vmf_nums vmf_progs && pcfg_ok gen_parsecfg && forallb lite_paired lite_classes && '
+            f'forallb (kind_ok gen_id_classes gen_id_managers gen_id_sites) ({kinds}) && member_loops_ok gen_member_loops && '
+            'vp_ok gen_vp_tiers gen_vp_tbl gen_vp_inv)%bool')
         res = ck.instance_obligations(IMPORTS, obs, name='c06')
         if not all(res.values()):
             ck.tie_broken.append('instance obligations failed: ' + ', '.join(k for k, v in res.items() if not v))
@@ -990,11 +1225,13 @@ def run(ck: Ck) -> None:
                       f'{sorted(s1 ^ s2)[:4]}')
         if s1 != s2:
             ck.tie_broken.append('program translator and template translator disagree on the written lines')
-        corr_escape(ck)
-        corr_rounding(ck)
-        corr_output_fixup(ck)
-        corr_tokens(ck)
-        corr_plane(ck)
+        guarded(ck, 'escape_scanner', corr_escape, ck)
+        guarded(ck, 'rounding', corr_rounding, ck)
+        guarded(ck, 'output_fixup', corr_output_fixup, ck)
+        guarded(ck, 'number_group_text', corr_tokens, ck)
+        guarded(ck, 'plane_text', corr_plane, ck)
+        guarded(ck, 'id_manager_programs', corr_ids, ck, tr.get('VmfIds_gen', {}))
+        guarded(ck, 'viewport_axis', corr_viewport, ck)
         try:
             validate_tables(ck, tr.get('VmfTemplates_gen', {}), tr.get('VmfKeys_gen', {}))
         except Exception as e:     # the rich map itself may fail to export when the source is broken: the search reports that
@@ -1013,6 +1250,7 @@ def run(ck: Ck) -> None:
         ck.explain('instance:keys_read:')
         ck.explain('instance:fields_paired:')
         ck.explain('instance:attrs_all_written:')
+        ck.explain('instance:containment_')       # an edge needs both of its classes paired
         ck.explain('translate:VmfLite_gen')
         ck.explain('tie:')
     if any('multiblend' in k or 'alphablend' in k for k in keys):
@@ -1049,10 +1287,29 @@ def run(ck: Ck) -> None:
         ck.explain('correspondence:output_')
     if any('fixups' in k or 'replaceN' in k for k in keys):
         ck.explain('correspondence:fixup_init')
+    if any(k.startswith('ids:') or k.endswith(('.id', ':id', ':visgroupid', ':groupid', ':nodeid')) for k in keys):
+        ck.explain('instance:ids_preserved_when_asked')
+        ck.explain('instance:parse_hands_preserve_ids_on')
+        ck.explain('instance:id_managers_complete')
+        ck.explain('correspondence:id_manager_programs')
+        ck.explain('translate:VmfIds_gen')
+    if any(k.endswith((':visgroupid', ':groupid', 'groupid|visgroupid', 'visgroupid|groupid')) or 'visgroupid' in k or 'groupid' in k for k in keys):
+        ck.explain('instance:membership_lines_in_canonical_order')
+        ck.explain('instance:membership_loops_found')
+    if any('viewport' in k or 'views' in k or 'D view p' in k or 'D_view_p' in k for k in keys):
+        ck.explain('instance:viewport_axis_tables_agree')
+        ck.explain('correspondence:viewport_axis')
+        ck.explain('translate:VmfViewport_gen')
     if any(k.startswith('order:entities') or k.startswith('text::') for k in keys):
         ck.explain('instance:entity_blocks_read_in_file_order')
     if any('fixups' in k or 'replaceN' in k for k in keys):
         ck.explain('instance:fixup_index_written_2_read_2')
+    # the composite obligation (hypotheses of c06_property) is explained when every failed component of it is
+    comp = ('instance:program_ok:', 'instance:programs_all_ok', 'instance:kv_parser_sites_ok', 'instance:fields_paired:',
+            'instance:ids_preserved_when_asked:', 'instance:membership_lines_in_canonical_order:', 'instance:viewport_axis_tables_agree')
+    failed = [o for o in ck.obligations if not o['ok'] and o['name'].startswith(comp)]
+    if failed and all(o.get('explained') for o in failed):
+        ck.explain('instance:property_hypotheses_hold_for_todays_source')
 
 
 def replay(data: dict) -> int:
@@ -1064,6 +1321,15 @@ def replay(data: dict) -> int:
             print('->', key, '|', what[:400])
         if not res:
             print('-> no violation on this tree')
+        return 0
+    if isinstance(r, dict) and 'manager' in r:
+        from srctools.vmf import VMF
+        got = getattr(VMF(preserve_ids=True), r['manager']).get_id(r['desired'])
+        print(f"VMF(preserve_ids=True).{r['manager']}.get_id({r['desired']}) -> {got!r}" + ('' if got == r['desired'] else '   (not preserved)'))
+        return 0
+    if isinstance(r, dict) and 'class' in r and 'desired' in r:
+        from srctools import vmf as V
+        print(f"{r['class']}(range(1, 40)).get_id({r['desired']}) ->", getattr(V, r['class'])(range(1, 40)).get_id(r['desired']))
         return 0
     if isinstance(r, dict) and 'file' in r:
         from srctools.keyvalues import Keyvalues
